@@ -42,7 +42,7 @@ Lemma upstream_closed_fixed : forall s,
 Proof.
   intros s Hr Hm. destruct (inv_reachable _ Hr) as (_ & _ & Hg & _).
   unfold glob1 in Hg. rewrite Hm in Hg.
-  apply andb_prop in Hg. destruct Hg as [Hg _]. apply andb_prop in Hg. destruct Hg as [Hg _]. exact Hg.
+  repeat (apply andb_prop in Hg; destruct Hg as [Hg _]). exact Hg.
 Qed.
 
 Lemma trig_ev_fixed : forall s, reachable cfg_fixed s -> trig s = true -> Ev s.
